@@ -115,8 +115,8 @@ def install(it, locks):
     it.call_hooks.append(hook)
 
 
-SERVER_ALLOW = [r'^server::<impl at [^>]*>::(on_did_change|on_did_open|set_vfs_file_content|apply_vfs_change|spawn_with_snapshot|spawn_update_diagnostics|on_did_change_watched_files|on_did_close)$',
-                r'^server::<impl at [^>]*>::(on_did_change|on_did_open|set_vfs_file_content|apply_vfs_change|spawn_update_diagnostics|on_did_close)::\{closure#\d+\}$']
+SERVER_ALLOW = [r'^server::<impl at [^>]*>::(on_did_change|on_did_open|set_vfs_file_content|apply_vfs_change|spawn_with_snapshot|spawn_update_\w+|on_did_change_watched_files|on_did_close)$',
+                r'^server::<impl at [^>]*>::(on_did_change|on_did_open|set_vfs_file_content|apply_vfs_change|spawn_update_\w+|on_did_close)::\{closure#\d+\}$']
 
 
 class LockSpec:
@@ -130,6 +130,14 @@ class LockSpec:
         it.allow = SERVER_ALLOW
         self.locks = Locks(it)
         install(it, self.locks)
+        # the set of open documents is not empty: iterating the keys of the (under-constrained) opened_files map yields one document
+        base_keys = it.models.get('HashMap::keys')
+
+        def keys(it_, c, a):
+            if isinstance(models.deref(a[0]), LazyV):
+                return PyIter(iter([RefV([LazyV('an-open-document')], 0)]))
+            return base_keys(it_, c, a) if base_keys else NotImplemented
+        it.models['HashMap::keys'] = keys
         return it
 
     def run_path(self, it):
@@ -153,7 +161,7 @@ class LockSpec:
         ev = self.locks.events
         if self.fn == 'on_did_change':
             applied = any(c.endswith('Vfs::change_file_content') for c in calls)
-            diag = any(e[0] == 'call' and False for e in ev) or any('spawn_update_diagnostics' in c for c in calls) or any('spawn_with_snapshot' in s for t in it.trace for s in t[3]) or \
+            diag = any(e[0] == 'call' and False for e in ev) or any(re.search(r'spawn_update_\w*diagnostics', c) for c in calls) or any('spawn_with_snapshot' in s for t in it.trace for s in t[3]) or \
                 any(c.endswith('task::spawn_blocking') or c.endswith('::snapshot') for c in calls)
             if applied and not diag:
                 bad.append('L4: a change was applied but no diagnostics task is spawned afterwards')
@@ -189,6 +197,70 @@ class LockSpec:
 
 def lock_factory(fn, nchanges):
     return LockSpec(fn, nchanges)
+
+
+class ConvergeSpec:
+    """L6 (convergence of published diagnostics): AnalysisHost::apply_change cancels the running queries of EVERY snapshot, so the
+    diagnostics task of every other open document dies with an edit (and its result may change with it).  After on_did_change /
+    on_did_open a diagnostics task must therefore have been (re)spawned for every open document, not only for the one the
+    notification names.  The server is under-constrained; its opened_files map holds two documents."""
+
+    def __init__(self, fn):
+        self.fn = fn
+
+    def make_interp(self):
+        it = vfsk.W.interp('glas', uc=True)
+        # every method of the Server impl is followed (helpers a fix may introduce included), except the one whose calls are the obligation
+        it.allow = [r'^server::<impl at [^>]*>::(?!spawn_update_diagnostics$|spawn_with_snapshot$|spawn_reload_config$|on_initialize|load_package_files$|assemble_graph$)\w+$',
+                    r'^server::<impl at [^>]*>::(?!spawn_update_diagnostics::)\w+::\{closure#\d+\}$']
+        self.locks = Locks(it)
+        install(it, self.locks)
+        self.other = Opaque('uri-of-the-other-open-document')
+        spec = self
+        base_keys = it.models.get('HashMap::keys')
+
+        def keys(it_, c, a):
+            if isinstance(models.deref(a[0]), LazyV):
+                spec.asked_keys = True
+                return PyIter(iter([RefV([spec.named], 0), RefV([spec.other], 0)]))
+            return base_keys(it_, c, a) if base_keys else NotImplemented
+        it.models['HashMap::keys'] = keys
+        it.models['<Url as Clone>::clone'] = lambda it_, c, a: models.deref(a[0])
+        return it
+
+    def run_path(self, it):
+        self.locks.reset(); self.locks.protected = {}
+        self.asked_keys = False
+        body = [b for n, b in vfsk.W.crates['glas'].items() if re.search(r'^server::<impl at [^>]*>::%s$' % self.fn, n)][0]
+        self.named = Opaque('uri-of-the-notification')
+        srv = LazyV('server')
+        if self.fn == 'on_did_change':
+            changes = [Agg('struct', 'TextDocumentContentChangeEvent', None, [LazyV('range0'), LazyV('range_length0'), LazyV('text0')])]
+            params = Agg('struct', 'DidChangeTextDocumentParams', None, [Agg('struct', 'VersionedTextDocumentIdentifier', None, [self.named, LazyV('version')]), VecV(changes)])
+        else:
+            params = Agg('struct', 'DidOpenTextDocumentParams', None, [Agg('struct', 'TextDocumentItem', None, [self.named, LazyV('lang'), LazyV('version'), LazyV('text')])])
+        r = it.run_body(body, [RefV([srv], 0), params])
+        calls = [t for t in it.trace if t[0].split('(')[0].endswith('spawn_update_diagnostics')]
+        applied = any(t[0].split('(')[0].endswith(('apply_vfs_change', 'AnalysisHost::apply_change')) for t in it.trace) or any(e[0] == 'call' for e in self.locks.events)
+        uris = [models.deref(t[1][1]) for t in calls if len(t[1]) > 1]
+        rec = {'cls': 'no-change-applied', 'ok': True}
+        if applied:
+            covers_other = any(u is self.other for u in uris)
+            covers_named = any(u is self.named for u in uris)
+            rec = {'cls': 'respawned:%s%s' % ('named' if covers_named else '', '+others' if covers_other else ''), 'ok': True,
+                   'sample': {'handler': self.fn, 'diagnostics_tasks': len(calls), 'covers_other_open_documents': covers_other}}
+            if not covers_other:
+                rec.update({'cls': 'violation', 'ok': False, 'cex': {'handler': self.fn, 'diagnostics_tasks_for': ['the named document' if u is self.named else str(u) for u in uris]},
+                            'why': ['C16: L6: %s applies a change (which cancels the diagnostics computation of every open document) but re-spawns diagnostics only for %s: '
+                                    'another open document whose task was cancelled keeps the empty list its cancelled task published' % (self.fn, 'the document it names' if covers_named else 'no document')]})
+        return rec
+
+    def on_panic(self, it, e):
+        return {'cls': 'panic-under-havoc:' + e.kind, 'ok': True}
+
+
+def converge_factory(fn):
+    return ConvergeSpec(fn)
 
 
 # ------------------------------------------------------------------------------------------------ C15b
